@@ -1,6 +1,6 @@
 (* C14 — statements only.  Each closed by [exact] of a lemma from Comb/Topology_proofs.v. *)
 From Coq Require Import List Arith ZArith NArith Bool Permutation.
-From TFV Require Import Comb.Topology Comb.Topology_proofs.
+From TFV Require Import Comb.Topology Comb.Topology_proofs Comb.Topology_n7.
 Import ListNotations.
 
 (* (2n-3)!! chains for n final particles - ALL n >= 1 (unbounded).
@@ -86,12 +86,13 @@ Theorem C14_chains_map_partition_le5_partial :
 Proof. exact chains_map_partition_le5_both. Qed.
 Print Assumptions C14_chains_map_partition_le5_partial.
 
-(* the particle map to / from the standard topology carries decays to decays, n <= 6 *)
-Theorem C14_topology_map_homomorphism_le6_partial :
-  forall n, In n [2; 3; 4; 5; 6] -> forall c, In c (from_particles n) ->
+(* the particle map to / from the standard topology carries decays to decays, every chain for n = 2..7 (the
+   property's range; n = 7 evaluated in Comb/Topology_n7.v) *)
+Theorem C14_topology_map_homomorphism_le7 :
+  forall n, In n [2; 3; 4; 5; 6; 7] -> forall c, In c (from_particles n) ->
     homomorphism_ok (standard_topology c) c && homomorphism_ok c (standard_topology c) = true.
-Proof. exact std_homomorphism_le6_forall. Qed.
-Print Assumptions C14_topology_map_homomorphism_le6_partial.
+Proof. exact std_homomorphism_le7_forall. Qed.
+Print Assumptions C14_topology_map_homomorphism_le7.
 
 (* the membership test of get_chains_map before /repo commit 04ce759 (identical=True against
    classes built with identical=False) does NOT give a partition: KeyError on this group *)
